@@ -93,7 +93,7 @@ def Reader.setBufidx (r : Reader) (n : Nat) : Reader := { r with s := r.s.take n
 
 /-- Which `read_error` was thrown (`fuel` is never produced by the C++; it marks exhaustion of
     the recursion bound of the two loops, proved unreachable where it matters). -/
-inductive Err | sep | conv | inv | ext | line | fuel
+inductive Err | sep | conv | inv | ext | line | long | fuel
 deriving Repr, DecidableEq
 
 abbrev Res (α : Type) := Except Err α
@@ -126,6 +126,7 @@ def readParse {V : Type} (P : List Char → Option (V × Nat)) (r1 : Reader) (se
   | none => (.error .conv, r1)
   | some (v, ptr) =>
     if readSepBad ptr bufend (r1.s.getD ptr ' ') sep then (.error .sep, r1)
+    else if readLong ptr bufend r1.keep then (.error .long, r1)
     else if readShift ptr bufend then
       let moved := (r1.s.take (readCopyTo bufend)).drop (readCopyFrom ptr)
       (.ok v, { r1 with s := r1.s.take readCopyDest ++ moved, bufidx := readBufidxShift r1.bufidx ptr })
@@ -181,7 +182,11 @@ def skipOuterLoop : Nat → Reader → IStream → Res Unit × Reader × IStream
             let r3 := r2.setBufidx skipAfterBufidx
             match nextLine r3 is2 with
             | (.error e, is3) => (.error e, r3, is3)
-            | (.ok (), is3) => skipOuterLoop f r3 is3
+            | (.ok (), is3) =>
+              let eof0 := is3.eof
+              let (c, is4) := if skipAgainEvalsPeek eof0 then is3.peek else (none, is3)
+              if skipAgain eof0 c then (.ok (), r3, is4)
+              else skipOuterLoop f r3 is4
     else (.ok (), r, is)
 
 /-- `skip_comments` -/
